@@ -180,7 +180,30 @@ func sortedKeysU(m map[uint64]bool) []uint64 {
 
 // Snapshot reads every read endpoint of every instance at every version, plus repo-level JSON.
 // Versions may be restricted (nil = all nodes of the DAG model).
-func (wd *World) Snapshot(versions []string) (*Snap, error) {
+// Hints fixes the label / key universes a snapshot queries, so that a later snapshot can ask exactly
+// the same questions as an earlier one although the workload has seen more labels since.
+type Hints struct {
+	Labels []uint64
+	NJ     []uint64
+	KV     []string
+}
+
+func (wd *World) CurrentHints() *Hints {
+	h := &Hints{Labels: sortedKeysU(wd.allLabels), NJ: sortedKeysU(wd.allNJ)}
+	for k := range wd.allKV {
+		h.KV = append(h.KV, k)
+	}
+	sort.Strings(h.KV)
+	return h
+}
+
+func (wd *World) Snapshot(versions []string) (*Snap, error) { return wd.SnapshotH(versions, nil) }
+
+func (wd *World) SnapshotH(versions []string, hints *Hints) (*Snap, error) {
+	if hints == nil {
+		hints = wd.CurrentHints()
+	}
+	on := func(t string) bool { return wd.has[t] && (wd.SnapTypes == nil || wd.SnapTypes[t]) }
 	s := &Snap{raw: map[string]drv.Resp{}, M: map[string]string{}, MutationID: map[string]uint64{}, SavedMutID: map[string]uint64{}}
 	// repo-level
 	r, err := wd.W.Get("/api/repos/info")
@@ -231,7 +254,7 @@ func (wd *World) Snapshot(versions []string) (*Snap, error) {
 	if versions == nil {
 		versions = wd.H.D.Order
 	}
-	labels := sortedKeysU(wd.allLabels)
+	labels := hints.Labels
 	var sample []uint64
 	for i, l := range labels {
 		if len(labels) <= 10 || i%(len(labels)/10+1) == 0 || i >= len(labels)-4 {
@@ -247,12 +270,8 @@ func (wd *World) Snapshot(versions []string) (*Snap, error) {
 	// a few fixed probe points (supervoxel cube centres)
 	probe := [][3]int{{8, 8, 8}, {24, 8, 8}, {40, 40, 40}, {56, 56, 56}, {8, 56, 24}, {33, 31, 32}}
 	probeJSON, _ := json.Marshal(probe)
-	njIDs := sortedKeysU(wd.allNJ)
-	var kvs []string
-	for k := range wd.allKV {
-		kvs = append(kvs, k)
-	}
-	sort.Strings(kvs)
+	njIDs := hints.NJ
+	kvs := hints.KV
 
 	// branch resolution
 	branches := map[string]bool{"master": true}
@@ -262,7 +281,7 @@ func (wd *World) Snapshot(versions []string) (*Snap, error) {
 		}
 	}
 	for b := range branches {
-		if wd.on("kv") {
+		if on("kv") {
 			if err := wd.get(s, "/api/node/"+wd.Root+":"+b+"/kv/keys"); err != nil {
 				return nil, err
 			}
@@ -281,7 +300,7 @@ func (wd *World) Snapshot(versions []string) (*Snap, error) {
 				return nil, err
 			}
 		}
-		if wd.on("kv") {
+		if on("kv") {
 			if err := wd.get(s, n+"kv/keys"); err != nil {
 				return nil, err
 			}
@@ -294,7 +313,7 @@ func (wd *World) Snapshot(versions []string) (*Snap, error) {
 				return nil, err
 			}
 		}
-		if wd.on("lm") {
+		if on("lm") {
 			for _, ep := range []string{
 				fmt.Sprintf("lm/raw/0_1_2/%d_%d_%d/0_0_0", volN, volN, volN),
 				fmt.Sprintf("lm/raw/0_1_2/%d_%d_%d/0_0_0?supervoxels=true", volN, volN, volN),
@@ -330,7 +349,7 @@ func (wd *World) Snapshot(versions []string) (*Snap, error) {
 				return nil, err
 			}
 		}
-		if wd.on("ann") {
+		if on("ann") {
 			for _, ep := range []string{"syn/all-elements", fmt.Sprintf("syn/elements/%d_%d_%d/0_0_0", volN, volN, volN), "syn/tag/t1?relationships=true", "syn/tag/t2", "syn/tag/t3",
 				"lsz/top/10/AllSyn", "lsz/top/10/PostSyn", "lsz/top/5/PreSyn", "lsz/threshold/1/AllSyn"} {
 				if err := wd.get(s, n+ep); err != nil {
@@ -346,7 +365,7 @@ func (wd *World) Snapshot(versions []string) (*Snap, error) {
 				}
 			}
 		}
-		if wd.on("nj") {
+		if on("nj") {
 			for _, ep := range []string{"nj/all", "nj/keys", "nj/fields", "nj/all?show=all"} {
 				if err := wd.get(s, n+ep); err != nil {
 					return nil, err
@@ -363,7 +382,7 @@ func (wd *World) Snapshot(versions []string) (*Snap, error) {
 				return nil, err
 			}
 		}
-		if wd.on("roi") {
+		if on("roi") {
 			if err := wd.get(s, n+"roi/roi"); err != nil {
 				return nil, err
 			}
@@ -371,7 +390,7 @@ func (wd *World) Snapshot(versions []string) (*Snap, error) {
 				return nil, err
 			}
 		}
-		if wd.on("img") {
+		if on("img") {
 			if err := wd.get(s, n+"img/raw/0_1_2/96_96_96/-32_-32_-32"); err != nil {
 				return nil, err
 			}
